@@ -7,7 +7,7 @@ RULE = ("texts = toml-test corpus + seeded single/double-edit mutants (one symbo
 
 
 def run(ctx):
-    parsecheck.run_parse(ctx, {"corpus", "mutants", "gen", "dates", "doc"}, {"verdict", "panic"})
+    parsecheck.run_parse(ctx, {"corpus", "mutants", "bytes", "gen", "dates", "doc"}, {"verdict", "panic"})
     # the value, key and key-path entry points on the value texts of the generator
     h = ctx.build(features=("preserve_order",))
     vp = parsecheck.value_texts(ctx, ctx.path("gen.ndjson"))
